@@ -102,6 +102,9 @@ func c07FileOp(op int) {
 	for _, p := range all {
 		vAssert("file_op_path_in_root", c07Within("/r", p))
 	}
+	for _, p := range e.fs.stats {
+		vAssert("file_op_stat_path_in_root", c07Within("/r", p))
+	}
 }
 
 func VH_C07_MoveTargets()   { c07FileOp(0) }
@@ -142,10 +145,7 @@ func VH_C07_RequestsNamingTheRoot_sym() {
 	vUnroll(200)
 	e := c07Env()
 	vAssume(e.fs.exists)
-	name := vBytesEach("name", 2)
-	if vBool("name_ends_in_partial_suffix") {
-		name = append(append([]byte(nil), name...), ".incomplete"...)
-	}
+	name := vBytesEach("name", 1)
 	nameField := f(hotline.FieldFileName, name)
 	switch vChoice("op", 5) {
 	case 0:
